@@ -150,6 +150,13 @@ func phaseSchedules(c *lib.Ctx) {
 }
 
 func replaySchedules(c *lib.Ctx, raw json.RawMessage) string {
+	var sub subCase
+	if json.Unmarshal(raw, &sub) == nil && (sub.Phase == "subsecond" || sub.Phase == "many-addresses") {
+		if k, d := runSubCase(c.TmpDir, 0, sub); k != "" {
+			return k + ": " + d
+		}
+		return ""
+	}
 	var sc schedCase
 	if err := json.Unmarshal(raw, &sc); err != nil {
 		return err.Error()
@@ -175,14 +182,70 @@ func replaySchedules(c *lib.Ctx, raw json.RawMessage) string {
 // period (and just after it): the BFS moves the clock in whole seconds, so the
 // instants with less than one second of the block left are covered here, for
 // every throttling configuration.  Stateless enumeration.
-func phaseSubSecond(c *lib.Ctx) {
-	type sub struct {
-		Phase   string  `json:"phase"`
-		Max     uint    `json:"max_attempts"`
-		BlockS  int     `json:"block_s"`
-		OffsetS float64 `json:"attempt_offset_from_block_end_s"`
-		Right   bool    `json:"right_password"`
+type subCase struct {
+	Phase   string  `json:"phase"`
+	Max     uint    `json:"max_attempts"`
+	BlockS  int     `json:"block_s"`
+	OffsetS float64 `json:"attempt_offset_from_block_end_s,omitempty"`
+	Right   bool    `json:"right_password"`
+	// many-addresses: number of other addresses that fail once each while the
+	// first address is blocked.
+	Others int `json:"other_addresses,omitempty"`
+}
+
+// runSubCase executes one stateless throttling case on a fresh instance.
+func runSubCase(tmp string, seq int, cs subCase) (vkey, vdesc string) {
+	dir := filepath.Join(tmp, fmt.Sprintf("c12b-%d", seq))
+	_ = os.MkdirAll(dir, 0o755)
+	defer os.RemoveAll(dir)
+	start := time.Date(2024, 6, 5, 10, 0, 0, 0, time.UTC)
+	vtime.SetVirtual(start)
+	defer vtime.SetVirtual(time.Time{})
+	block := time.Duration(cs.BlockS) * time.Second
+	if err := home.VerifC12Init(dir, cs.Max, block, 3600); err != nil {
+		panic(err)
 	}
+	defer home.VerifC12Close()
+	for i := uint(0); i < cs.Max; i++ {
+		home.VerifC12Login("192.0.2.1:1000", home.VerifC12User, "wrong", nil)
+	}
+	pass := "wrong"
+	if cs.Right {
+		pass = home.VerifC12Password
+	}
+	if cs.Phase == "many-addresses" {
+		// The block period has just begun; within the same minute many other
+		// addresses fail once each.
+		for i := 0; i < cs.Others; i++ {
+			vtime.AdvanceVirtual(time.Millisecond)
+			st, _, _, _ := home.VerifC12Login(fmt.Sprintf("198.51.%d.%d:2000", 1+i/250, 1+i%250), home.VerifC12User, "wrong", nil)
+			if st != 403 && !(cs.Max == 1 && st == 403) {
+				return "many:first-failure-of-an-address-not-403", fmt.Sprintf("first failed login of address #%d answered %d", i, st)
+			}
+		}
+		st, _, hasRA, cookie := home.VerifC12Login("192.0.2.1:1001", home.VerifC12User, pass, nil)
+		if st != 429 || !hasRA || cookie != "" {
+			return "many:block-lifted-by-other-addresses", fmt.Sprintf("%d failed logins from one address, then one failed login from each of %d other addresses within %d ms, then a login (right password: %v) from the first address, %s into its %s block period: HTTP %d, Retry-After present=%v, session created=%v; must be 429 with Retry-After and no session",
+				cs.Max, cs.Others, cs.Others, cs.Right, vtime.Now().Sub(start), block, st, hasRA, cookie != "")
+		}
+		return "", ""
+	}
+	off := time.Duration(cs.OffsetS * float64(time.Second))
+	// The block period starts with the last failure.
+	vtime.SetVirtual(start.Add(block + off))
+	st, _, hasRA, cookie := home.VerifC12Login("192.0.2.1:1001", home.VerifC12User, pass, nil)
+	switch {
+	case off < 0 && (st != 429 || !hasRA || cookie != ""):
+		return "subsecond:not-blocked-inside-block-period", fmt.Sprintf("%d failed logins, then a login (right password: %v) %.3f s before the end of the %s block period: HTTP %d, Retry-After present=%v, session created=%v; must be 429 with Retry-After and no session", cs.Max, cs.Right, -off.Seconds(), block, st, hasRA, cookie != "")
+	case off > 0 && st == 429:
+		return "subsecond:blocked-after-block-period", fmt.Sprintf("login %.3f s after the end of the %s block period is still answered 429", off.Seconds(), block)
+	case off > 0 && cs.Right && (st != 200 || cookie == ""):
+		return "subsecond:right-password-refused-after-block-period", fmt.Sprintf("right password %.3f s after the block period: HTTP %d", off.Seconds(), st)
+	}
+	return "", ""
+}
+
+func phaseSubSecond(c *lib.Ctx) {
 	seq := 0
 	for _, max := range []uint{1, 2, 3} {
 		for _, block := range []time.Duration{2 * time.Minute, 15 * time.Minute} {
@@ -192,37 +255,31 @@ func phaseSubSecond(c *lib.Ctx) {
 					if !c.Mine(seq) {
 						continue
 					}
-					dir := filepath.Join(c.TmpDir, fmt.Sprintf("c12b-%d", seq))
-					_ = os.MkdirAll(dir, 0o755)
-					start := time.Date(2024, 6, 5, 10, 0, 0, 0, time.UTC)
-					vtime.SetVirtual(start)
-					if err := home.VerifC12Init(dir, max, block, 3600); err != nil {
-						panic(err)
-					}
-					for i := uint(0); i < max; i++ {
-						home.VerifC12Login("192.0.2.1:1000", home.VerifC12User, "wrong", nil)
-					}
-					// The block period starts with the last failure.
-					vtime.SetVirtual(start.Add(block + off))
-					pass := "wrong"
-					if right {
-						pass = home.VerifC12Password
-					}
-					st, _, hasRA, cookie := home.VerifC12Login("192.0.2.1:1001", home.VerifC12User, pass, nil)
+					cs := subCase{Phase: "subsecond", Max: max, BlockS: int(block / time.Second), OffsetS: off.Seconds(), Right: right}
 					c.Count("subsecond_attempts", 1)
 					c.Distinct("nontrivial", fmt.Sprint("subsecond|", max, block, off, right))
-					cs := sub{"subsecond", max, int(block / time.Second), off.Seconds(), right}
-					switch {
-					case off < 0 && (st != 429 || !hasRA || cookie != ""):
-						c.Violation("subsecond:not-blocked-inside-block-period", fmt.Sprintf("%d failed logins, then a login (right password: %v) %.3f s before the end of the %s block period: HTTP %d, Retry-After present=%v, session created=%v; must be 429 with Retry-After and no session", max, right, -off.Seconds(), block, st, hasRA, cookie != ""), cs)
-					case off > 0 && st == 429:
-						c.Violation("subsecond:blocked-after-block-period", fmt.Sprintf("login %.3f s after the end of the %s block period is still answered 429", off.Seconds(), block), cs)
-					case off > 0 && right && (st != 200 || cookie == ""):
-						c.Violation("subsecond:right-password-refused-after-block-period", fmt.Sprintf("right password %.3f s after the block period: HTTP %d", off.Seconds(), st), cs)
+					if k, d := runSubCase(c.TmpDir, seq, cs); k != "" {
+						c.Violation(k, d, cs)
 					}
-					home.VerifC12Close()
-					vtime.SetVirtual(time.Time{})
-					_ = os.RemoveAll(dir)
+				}
+			}
+		}
+	}
+	// Many addresses failing while one address is blocked: the record of the
+	// blocked address must survive whatever the others do to the table.
+	for _, max := range []uint{1, 3} {
+		for _, n := range []int{20, 1100, 2500} {
+			for _, right := range []bool{true, false} {
+				seq++
+				if !c.Mine(seq) {
+					continue
+				}
+				cs := subCase{Phase: "many-addresses", Max: max, BlockS: 900, Right: right, Others: n}
+				c.Count("many_address_cases", 1)
+				c.Count("evals", int64(n))
+				c.Distinct("nontrivial", fmt.Sprint("many|", max, n, right))
+				if k, d := runSubCase(c.TmpDir, seq, cs); k != "" {
+					c.Violation(k, d, cs)
 				}
 			}
 		}
